@@ -6,6 +6,7 @@
 //!   sim gen <Cxx> <seed>    (print the generated case)
 
 mod framework;
+mod net;
 mod fsmodel;
 mod orchestrate;
 mod prng;
